@@ -36,6 +36,14 @@ func c19(ctx *Ctx) (*Outcome, error) {
 		cases = append(cases, c)
 	}
 	cases = append(cases, c19Shapes(ctx)...)
+	for i := 0; i < 5; i++ {
+		// format-typed strings fed texts next to the canonical forms (empty, truncated, with zone suffix ...)
+		c := lenientFormatCase(i)
+		if i%2 == 1 {
+			c.Args = nil
+		}
+		cases = append(cases, c)
+	}
 	run := func(race bool, cs []*sem.Case) (*sem.Report, error) {
 		return sem.RunTotal(&sem.TotalConfig{Prop: "C19", Tier: ctx.Tier, Seed: ctx.Seed, Cases: cs, Env: ctx.Env, Race: race, PerProg: ctx.N(700, 1500)})
 	}
